@@ -773,8 +773,11 @@ def h_mvref(orig: Any, self: Any, x: Any) -> Any:
                           expr=dense.describe(self), expected=[list(e.shape) for e in exp],
                           got=[list(g.shape) for g in got])
             return
-        tol = mv_tolerance(self, x, y)
-        for e, g in zip(exp, got):
+        tol0 = mv_tolerance(self, x, y)
+        xl, yl = jax.tree.leaves(x), jax.tree.leaves(y)
+        leafwise = len(xl) == len(yl) == len(exp)      # every modelled class acts leaf by leaf: each leaf is judged in its own precision
+        for i, (e, g) in enumerate(zip(exp, got)):
+            tol = mv_tolerance(self, xl[i], yl[i]) if leafwise else tol0
             ok, err = dense.close(e, g, tol)
             if not ok:
                 LOG.violation(prop, mon, f'{name}.mv/values', f'differs from the NumPy reference model '
